@@ -178,7 +178,7 @@ def guarded(fn, inst):
 
 
 def tasks(tier):
-    out = [Task("C17/kernels", lambda: kernels(tier), kind="enumerated", bound=dict(d="0..4", N="1..4(5)", knots="uniform, geometric", subgrids=6))]
+    out = [Task("C17/kernels", lambda: kernels(tier), kind="enumerated", bound=dict(d="0..4", N="1..4(5)", knots="uniform, geometric", subgrids=6), replay=dict(harness="kernel_probe"))]
     for meth in ("MS", "DC"):
         for d in (0, 1, 2, 3):
             for gk in ("uniform", "geometric"):
